@@ -610,6 +610,9 @@ func runC06(e *Env) error {
 	})
 	if e.Replay == "" {
 		c06Writers(e, pool, work)
+		if e.Atlas != "" {
+			c06CLI(e, work)
+		}
 	}
 	return nil
 }
@@ -628,6 +631,7 @@ func c06Writers(e *Env, pool *hx.Pool, work string) {
 			{"plan:1", "plan:22", "rename:22_p.sql:3.sql", "rehash"},
 			{"plan:1", "plan:2", "remove:1_p.sql", "remove:2_p.sql", "rehash"},
 			{"plan:1", "shrink:1_p.sql", "rehash"},
+			{"plan:1", "plan:2", "shrink:2_p.sql", "rehash", "shrink:1_p.sql"},
 		}
 		for _, seq := range seqs {
 			d, done, err := mkDir(kind, work, nil, nil, false)
@@ -660,8 +664,14 @@ func c06Writers(e *Env, pool *hx.Pool, work string) {
 					break
 				}
 				writes := parts[0] == "plan" || parts[0] == "checkpoint" || parts[0] == "rehash"
-				if verr := migrate.Validate(d); writes && verr != nil {
+				verr := migrate.Validate(d)
+				if writes && verr != nil {
 					bad = fmt.Sprintf("after step %d (%s) the directory does not validate: %v", si, op, verr)
+					break
+				}
+				if parts[0] == "shrink" && verr == nil {
+					// an existing file overwritten in place (the directory was listed and validated before)
+					bad = fmt.Sprintf("after step %d (%s) - an existing file overwritten in place without re-hashing - the directory still validates", si, op)
 					break
 				}
 			}
@@ -722,4 +732,103 @@ func renameFile(d migrate.Dir, from, to string) error {
 		return nil
 	}
 	return fmt.Errorf("unknown dir")
+}
+
+// c06CLI: every CLI command that writes to a migration directory leaves it valid (`migrate validate`
+// and the library's Validate on a fresh LocalDir), starting from an empty directory - which is valid.
+func c06CLI(e *Env, work string) {
+	const schema1 = "CREATE TABLE users (id integer NOT NULL, name text NULL, PRIMARY KEY (id));\n"
+	const schema2 = schema1 + "CREATE TABLE posts (id integer NOT NULL, PRIMARY KEY (id));\n"
+	const cfg = `variable "migrations_path" {
+  type = string
+}
+data "template_dir" "app" {
+  path = var.migrations_path
+  vars = {
+    name = "users"
+  }
+}
+env "local" {
+  src = "file://schema.sql"
+  dev = "sqlite://dev?mode=memory"
+  migration {
+    dir = data.template_dir.app.url
+  }
+}
+`
+	type step struct {
+		name string
+		run  func(dir string) cliOut
+	}
+	plainDiff := func(name string) step {
+		return step{"migrate diff " + name, func(dir string) cliOut {
+			return runAtlas(e, dir, nil, "migrate", "diff", name, "--dir", "file://m", "--to", "file://schema.sql", "--dev-url", "sqlite://dev?mode=memory")
+		}}
+	}
+	envDiff := func(name string) step {
+		return step{"migrate diff " + name + " --env local (template_dir)", func(dir string) cliOut {
+			return runAtlas(e, dir, nil, "migrate", "diff", name, "-c", "file://atlas.hcl", "--env", "local", "--var", "migrations_path="+filepath.Join(dir, "m"))
+		}}
+	}
+	setSchema := func(sql string) step {
+		return step{"(edit schema.sql)", func(dir string) cliOut {
+			os.WriteFile(filepath.Join(dir, "schema.sql"), []byte(sql), 0o644)
+			return cliOut{}
+		}}
+	}
+	newFile := step{"migrate new manual", func(dir string) cliOut {
+		return runAtlas(e, dir, nil, "migrate", "new", "manual", "--dir", "file://m")
+	}}
+	hash := step{"migrate hash", func(dir string) cliOut { return runAtlas(e, dir, nil, "migrate", "hash", "--dir", "file://m") }}
+	appendStmt := step{"(append a statement to the last file)", func(dir string) cliOut {
+		fs, _ := filepath.Glob(filepath.Join(dir, "m", "*.sql"))
+		sort.Strings(fs)
+		if len(fs) > 0 {
+			f, _ := os.OpenFile(fs[len(fs)-1], os.O_APPEND|os.O_WRONLY, 0o644)
+			f.WriteString("CREATE TABLE extra (id integer);\n")
+			f.Close()
+		}
+		return cliOut{}
+	}}
+	scenarios := [][]step{
+		{setSchema(schema1), plainDiff("first"), setSchema(schema2), plainDiff("second"), newFile},
+		{setSchema(schema1), envDiff("first"), setSchema(schema2), envDiff("second")},
+		{setSchema(schema1), plainDiff("first"), setSchema(schema2), envDiff("second"), newFile},
+		{newFile, setSchema(schema1), envDiff("first")},
+		{setSchema(schema1), plainDiff("first"), appendStmt, hash, setSchema(schema2), plainDiff("second")},
+	}
+	for si, sc := range scenarios {
+		dir := filepath.Join(work, fmt.Sprintf("c06cli-%d", si))
+		os.RemoveAll(dir)
+		os.MkdirAll(filepath.Join(dir, "m"), 0o755)
+		os.WriteFile(filepath.Join(dir, "atlas.hcl"), []byte(cfg), 0o644)
+		var done []string
+		for _, st := range sc {
+			o := st.run(dir)
+			done = append(done, st.name)
+			if strings.HasPrefix(st.name, "(") {
+				if strings.HasPrefix(st.name, "(append") {
+					continue // the directory is knowingly stale until `migrate hash`
+				}
+				continue
+			}
+			e.Res.Count(fmt.Sprintf("cli-writers:%d:%s", si, strings.Join(done, ";")), true, "cli-writers")
+			if o.Code != 0 {
+				e.Res.Violate("failing-input", "cli-writer-fails", fmt.Sprintf("%v: `%s` fails: %s", done, st.name, trunc(o.Stderr+o.Stdout, 300)), "Props.C06.writers_leave_valid", map[string]any{"steps": done})
+				break
+			}
+			ld, err := migrate.NewLocalDir(filepath.Join(dir, "m"))
+			var verr error
+			if err == nil {
+				verr = migrate.Validate(ld)
+			}
+			v := runAtlas(e, dir, nil, "migrate", "validate", "--dir", "file://m")
+			if err != nil || verr != nil || v.Code != 0 {
+				names, _ := filepath.Glob(filepath.Join(dir, "m", "*"))
+				e.Res.Violate("failing-input", "cli-writer-leaves-invalid-dir", fmt.Sprintf("after %v the directory %v does not validate: library: %v; `migrate validate`: exit %d %s", done, mapS(names, filepath.Base), verr, v.Code, trunc(v.Stderr+v.Stdout, 200)), "Props.C06.writers_leave_valid", map[string]any{"steps": done})
+				break
+			}
+		}
+		os.RemoveAll(dir)
+	}
 }
